@@ -57,7 +57,7 @@ def bounds(tier, prop):
         return {"old path frames": "3..4 (sh), 3 (wf)", "length limit": "symbolic integer in [3, 5] (sh), [3,4] (wf)",
                 "fresh frames per propagation": "limit-2 (sh), limit-1 (wf): never binding", "n_jumps": "1",
                 "outside": "longer old paths / larger limits / n_jumps=2 (thorough)"}
-    return {"old path frames": "3..5 (sh), 3..4 (wf)", "length limit": "symbolic integer in [3, 6] (sh); wf: fixed 9 with <= 2 new frames per propagation, and symbolic [3,4]",
+    return {"old path frames": "3..5 (sh), 3..4 (wf)", "length limit": "symbolic integer in [3, 6] for [i+] ensembles with old length <= 4, [3, 5] otherwise (sh); wf: fixed 9 with <= 2 new frames per propagation, and symbolic [3,4]",
             "fresh frames per propagation": "never binding", "n_jumps": "1..2", "outside": "larger sizes"}
 
 
@@ -68,24 +68,26 @@ def instances(tier, prop):
         for Lo in ((3, 4) if quick else (3, 4, 5)):
             for mode in ("plain", "ld", "allowmax"):
                 for kick in (False, True):
-                    Mmax = 5 if quick else 6
+                    Mmax = 5 if (quick or Lo == 5 or ens != "plus") else 6
+                    if not quick and Lo == 5 and (kick or mode != "plain") and ens != "plus":
+                        continue
                     out.append({"kind": "sh", "ens": ens, "Lo": Lo, "Mmax": Mmax, "mode": mode, "kick": kick,
-                                "_cost": 9 ** Mmax * (3 if kick else 1) * Lo, "_splitbits": 2 if Lo >= 4 else 0})
+                                "_cost": 9 ** Mmax * (3 if kick else 1) * Lo,
+                                "_splitbits": (2 if Lo >= 4 else 0) if quick else (6 if Mmax == 6 else 4)})
     # wf-A: generous fixed limit, every propagation ends within `nfresh` new frames (paths that would need more are
-    #       outside the bound); wf-B: symbolic small limit, frames never binding (limit interplay, FTX).
+    #       outside the bound); wf-B: small limit, frames never binding (limit interplay, FTX).
     for Lo in ((3,) if quick else (3, 4)):
         for cap in (False, True):
             for nj in ((1,) if quick else (1, 2)):
                 if nj == 2 and Lo == 4:
                     continue
                 out.append({"kind": "wf", "Lo": Lo, "M": 9, "nfresh": 2, "cap": cap, "n_jumps": nj,
-                            "_cost": 1e6 * 9 ** Lo * nj * nj, "_splitbits": 4 if quick else 7})
+                            "_cost": 1e6 * 9 ** Lo * nj * nj, "_splitbits": 4 if quick else 8})
     for cap in (False, True):
         if quick:
             out.append({"kind": "wf", "Lo": 3, "M": 4, "nfresh": 3, "cap": cap, "n_jumps": 1, "_cost": 5e8, "_splitbits": 5})
         else:
-            out.append({"kind": "wf", "Lo": 3, "Mmax": 4, "cap": cap, "n_jumps": 1, "_cost": 5e9, "_splitbits": 7})
-            out.append({"kind": "wf", "Lo": 4, "M": 4, "nfresh": 3, "cap": cap, "n_jumps": 1, "_cost": 5e9, "_splitbits": 7})
+            out.append({"kind": "wf", "Lo": 3, "Mmax": 4, "cap": cap, "n_jumps": 1, "_cost": 5e9, "_splitbits": 8})
     return out
 
 
